@@ -40,6 +40,10 @@ pub struct TDoc {
     /// js.o = integer (a scalar under the key that is an object in other documents); only used when ox and oy are absent
     #[serde(default)]
     pub os: Option<i8>,
+    /// js.n additionally holds 2^63 + 5 (an unsigned value above i64::MAX: where no negative value shares the segment the
+    /// column of the path is u64, and integer bounds of a range have to be converted)
+    #[serde(default)]
+    pub big: bool,
     /// facets, each a path of segments "s<n>"
     pub fa: Vec<Vec<u8>>,
     pub bo: Option<bool>,
@@ -116,7 +120,7 @@ fn matches(q: &TQ, d: &TDoc) -> bool {
         TQ::JInt(v) => d.n.contains(v),
         TQ::JNested(v) => d.oy == Some(*v),
         TQ::JFloat(v) => d.f == Some(*v),
-        TQ::JIntRange(lo, hi) => d.n.iter().any(|v| in_range(*v as f64, *lo, *hi, false)),
+        TQ::JIntRange(lo, hi) => d.n.iter().any(|v| in_range(*v as f64, *lo, *hi, false)) || (d.big && !d.n.is_empty() && *hi == Bd::Un),
         TQ::JFloatRange(lo, hi) => d.f.map(|v| in_range(v as f64 + 0.5, *lo, *hi, true)).unwrap_or(false),
         TQ::JExists(0) => d.k.is_some(),
         TQ::JExists(1) => !d.t.is_empty(),
@@ -270,10 +274,10 @@ fn to_doc(uid: u64, d: &TDoc, f: &F) -> TantivyDocument {
     if !d.t.is_empty() {
         obj.push(("t".into(), OwnedValue::Str(d.t.iter().map(|w| format!("w{w}")).collect::<Vec<_>>().join(" "))));
     }
-    match d.n.len() {
-        0 => {}
-        1 => obj.push(("n".into(), OwnedValue::I64(d.n[0] as i64))),
-        _ => obj.push(("n".into(), OwnedValue::Array(d.n.iter().map(|v| OwnedValue::I64(*v as i64)).collect()))),
+    match (d.n.len(), d.big && !d.n.is_empty()) {
+        (0, _) => {}
+        (1, false) => obj.push(("n".into(), OwnedValue::I64(d.n[0] as i64))),
+        (_, big) => obj.push(("n".into(), OwnedValue::Array(d.n.iter().map(|v| OwnedValue::I64(*v as i64)).chain(big.then_some(OwnedValue::U64((1u64 << 63) + 5))).collect()))),
     }
     if let Some(x) = d.f {
         obj.push(("f".into(), OwnedValue::F64(x as f64 + 0.5)));
@@ -313,7 +317,7 @@ fn tdoc_strategy() -> impl Strategy<Value = TDoc> {
         prop::option::weighted(0.6, any::<bool>()),
         prop::option::weighted(0.5, prop::collection::vec(0u8..3, 0..3)),
     )
-        .prop_map(|((k, t, n, f), (ox, oy, os), fa, bo, by)| TDoc { k, t, n, f, ox, oy, os, fa, bo, by })
+        .prop_map(|((k, t, n, f), (ox, oy, os), fa, bo, by)| TDoc { k, t, n, f, ox, oy, os, big: false, fa, bo, by })
 }
 fn bd() -> impl Strategy<Value = Bd> {
     prop_oneof![1 => Just(Bd::Un), 3 => (-7i8..8).prop_map(Bd::In), 2 => (-7i8..8).prop_map(Bd::Ex)]
@@ -367,7 +371,19 @@ impl Sub for Typed {
             prop::collection::vec(tq_strategy(), 20..36),
             any::<bool>(),
         )
-            .prop_map(|(docs, repeat, cuts, deletes, expand_dots, queries, merge_after)| TypedCase { docs, repeat, cuts, deletes, expand_dots, queries, merge_after })
+            .prop_map(|(mut docs, repeat, cuts, deletes, expand_dots, queries, merge_after)| {
+                // one corpus in three: js.n is non-negative everywhere and some documents also hold a value above
+                // i64::MAX (segments whose column of the path is u64)
+                if cuts.first().map(|c| c % 3 == 0).unwrap_or(false) {
+                    for (i, d) in docs.iter_mut().enumerate() {
+                        for v in d.n.iter_mut() {
+                            *v = v.abs();
+                        }
+                        d.big = i % 3 == 0;
+                    }
+                }
+                TypedCase { docs, repeat, cuts, deletes, expand_dots, queries, merge_after }
+            })
             .boxed()
     }
     fn mandatory_labels(&self, _t: Tier) -> Vec<&'static str> {
